@@ -267,7 +267,11 @@ func c05PreCases(rng *h.Rng, limit int, nRandom int, big bool) []c05PreCase {
 		add(d, "block-with-trailing-bytes", append(append([]byte{}, d.wire...), 0, 0, 0), "", d.doc, d.tree)
 		// ---- well-formed documents whose real length is around the limit
 		sizes := []int{limit - 1, limit, limit + 1}
-		if big {
+		if limit > 32<<20 {
+			// a limit this large is itself outside the allocation rule (C05.unsnappy_alloc_within_rule no longer
+			// proves); documents of that size are not built in this process
+			sizes = nil
+		} else if big {
 			sizes = append(sizes, limit-2, limit+2, limit/2, 2*limit, limit+rng.Intn(1000), limit-rng.Intn(1000))
 		}
 		for _, n := range sizes {
